@@ -212,11 +212,24 @@ class _RawHandler(socketserver.BaseRequestHandler):
                 hl = {n.lower(): v for n, v in hs}
                 if spec.get("send100") and "100-continue" in hl.get("expect", "").lower():
                     conn.sendall(b"HTTP/1.1 100 Continue\r\n\r\n")
+                raw = rest
                 if spec.get("early"):
-                    # answer before reading any body byte (final response while the client is still sending)
+                    # final response while the client is still sending: answer once `early_after` body bytes
+                    # (decoded) have arrived and squid has had time to finish writing what it has
+                    while True:
+                        d0 = read_message_body(hs, raw, False)
+                        if len(d0["body"]) >= spec.get("early_after", 0) or d0["complete"] or d0["bad"]:
+                            break
+                        try:
+                            x = conn.recv(262144)
+                        except socket.timeout:
+                            x = b""
+                        if not x:
+                            break
+                        raw += x
+                    time.sleep(spec.get("early_delay", 0.25))
                     self.reply(conn, spec, rid)
                 # read the body: stop when the declared framing is satisfied, or at EOF
-                raw = rest
                 while True:
                     d = read_message_body(hs, raw, False)
                     if d["framing"] == "close":
